@@ -212,6 +212,7 @@ def library():
 def check_one(job):
     label, src = job
     st = smt.Stats()
+    smt.STATS = st  # path-feasibility queries of the machines are charged to this job too
     out = {"job": job, "sigs": [], "status": None, "runs": 0}
     o = classify(src + "\n", plain=False, **OPTS)
     out["status"] = o[0]
